@@ -107,4 +107,51 @@ theorem schedule_eq_sequential (tasks : List (List (Step α))) (sched : List (St
     runAll sched s = runAll tasks.flatten s :=
   runAll_eq_of_stepsOf_eq _ sched s hs.1 hs.2 hc
 
+theorem stepsOf_append (t : Nat) (a b : List (Step α)) : stepsOf t (a ++ b) = stepsOf t a ++ stepsOf t b := by
+  simp [stepsOf]
+
+/-- the sequential order is a schedule -/
+theorem isSchedule_flatten (tasks : List (List (Step α))) : IsSchedule tasks tasks.flatten := ⟨rfl, fun _ => rfl⟩
+
+/-- tasks carrying different task numbers: at most one of two has steps of task `t` -/
+private theorem stepsOf_nil_of_ne (t : Nat) (x y : List (Step α)) (h : ∀ a ∈ x, ∀ b ∈ y, a.task ≠ b.task) :
+    stepsOf t x = [] ∨ stepsOf t y = [] := by
+  by_cases hx : stepsOf t x = []
+  · exact Or.inl hx
+  · right
+    obtain ⟨a, ha⟩ := List.exists_mem_of_ne_nil _ hx
+    have ha' := List.mem_filter.mp ha
+    rw [stepsOf, List.filter_eq_nil_iff]
+    intro b hb hbt
+    have : a.task = t := by simpa using ha'.2
+    have : b.task = t := by simpa using hbt
+    exact h a ha'.1 b hb (by omega)
+
+/-- EVERY permutation of whole tasks (execution orders at task granularity) is a schedule, when different tasks
+    carry different task numbers -/
+theorem perm_tasks_isSchedule (tasks tasks' : List (List (Step α))) (hperm : tasks.Perm tasks')
+    (hdist : tasks.Pairwise (fun l l' => ∀ a ∈ l, ∀ b ∈ l', a.task ≠ b.task)) :
+    IsSchedule tasks tasks'.flatten := by
+  constructor
+  · have := (hperm.map List.length).sum_nat
+    simp [List.length_flatten, this]
+  · intro t
+    induction hperm with
+    | nil => rfl
+    | cons x _ ih =>
+      have hd := List.pairwise_cons.mp hdist
+      simp only [List.flatten_cons, stepsOf_append]
+      rw [ih hd.2]
+    | swap x y l =>
+      have hd := List.pairwise_cons.mp hdist
+      have hxy := hd.1 x (by simp)
+      simp only [List.flatten_cons, stepsOf_append, ← List.append_assoc]
+      congr 1
+      rcases stepsOf_nil_of_ne t y x hxy with h | h <;> simp [h]
+    | trans h1 _ ih1 ih2 =>
+      have hsymm : ∀ {l l' : List (Step α)}, (∀ a ∈ l, ∀ b ∈ l', a.task ≠ b.task) → ∀ a ∈ l', ∀ b ∈ l, a.task ≠ b.task :=
+        fun h a ha b hb e => h b hb a ha e.symm
+      have hd2 := (h1.pairwise_iff (fun {_ _} h => hsymm h)).mp hdist
+      rw [ih2 hd2, ih1 hdist]
+
 end WinterProofs.C14
